@@ -41,9 +41,9 @@ type Cmd struct {
 	// plan document
 	Plan *PlanDoc `json:"plan,omitempty"`
 	// where to start and how to spell the store
-	Sub     string `json:"sub,omitempty"`     // cwd relative to project root ("" = root)
-	DirMode string `json:"dirmode,omitempty"` // "" | abs | rel | ergo | absergo | slash | dotdot
-	Extra   []string `json:"extra,omitempty"` // extra raw args appended (conflicting flags etc.)
+	Sub     string   `json:"sub,omitempty"`     // cwd relative to project root ("" = root)
+	DirMode string   `json:"dirmode,omitempty"` // "" | abs | rel | ergo | absergo | slash | dotdot
+	Extra   []string `json:"extra,omitempty"`   // extra raw args appended (conflicting flags etc.)
 }
 
 type PlanTask struct {
